@@ -301,6 +301,27 @@ func propC10(r *Run) {
 				return out
 			}
 		}
+		// transient accept() failures on the saslauthd socket (descriptor exhaustion): the frontend
+		// must keep accepting afterwards
+		if len(vias) > 1 && r.Choose("accept-faults", 3) == 0 {
+			prev := o.extra
+			left := 1 + r.Choose("naccept-faults", 2)
+			o.wExtra = 3
+			o.extra = func() []action {
+				var out []action
+				if prev != nil {
+					out = prev()
+				}
+				if left > 0 {
+					out = append(out, action{3, "accept() on the saslauthd socket fails once with EMFILE", func() {
+						left--
+						w.nw.InjectAcceptError(a.saslPath, syscall.EMFILE)
+						r.Count("fault:accept-emfile")
+					}})
+				}
+				return out
+			}
+		}
 		w.runLoop(o)
 		drainExtra := func() bool {
 			w.rtMu.Lock()
@@ -330,6 +351,11 @@ func propC10(r *Run) {
 		// the agent keeps accepting new requests
 		probe := &Call{Kind: "authenticate", Via: "agent", Agent: a.idx, User: "root", PW: "x"}
 		w.addClient([]*Call{probe})
+		if a.saslPath != "" {
+			// ... on every frontend
+			w.addClient([]*Call{{Kind: "authenticate", Via: "sasl", Agent: a.idx, User: "root", PW: "x"}})
+			w.addClient([]*Call{{Kind: "authenticate", Via: "ldap", Agent: a.idx, User: "root", PW: "x"}})
+		}
 		if wedge := w.drain(drainExtra); wedge != "" {
 			r.Fail(wedgeSignature(wedge)+"/after-load", "after the load the agent no longer answers: %s", wedge)
 		}
